@@ -45,6 +45,7 @@ using vh::fmt;
 // ------------------------------------------------------------------------------------------------------------
 struct Diff
 {
+  std::string owner;   // class whose reader/writer owns the field ("" = the class of the registry entry)
   std::string section; // "getters" | "behaviour" | "invariant"
   std::string field;   // stable id, goes into the violation key
   std::string what;    // human detail (first difference of that field)
@@ -57,16 +58,43 @@ struct Cmp
   std::vector<Diff> diffs;
   // per (section, field): number of elementary comparisons, max relative error among the *passing* ones
   struct Stat { long n = 0; double maxRel = 0; };
-  std::map<std::string, Stat> stats; // key = section + "|" + field
+  std::map<std::string, Stat> stats; // key = owner + "|" + section + "|" + field
+  // fields read/written by a base class (Db table, ANeigh, AnamDiscrete...) are keyed by that class, so that one defect
+  // in a shared reader gives one key whatever the derived class being exercised
+  std::string owner;
+  struct Owner
+  {
+    Cmp& c;
+    std::string prev;
+    Owner(Cmp& cc, const std::string& o) : c(cc), prev(cc.owner) { c.owner = o; }
+    ~Owner() { c.owner = prev; }
+  };
   static constexpr double RELTOL = 1e-14;
 
-  void setSection(const std::string& s) { section = s; }
-  Stat& st(const std::string& field) { return stats[section + "|" + field]; }
+  bool skipBehaviour = false; // set by the caller when both objects are already known to be damaged reloads
+  long behaviourSkipped = 0;
+  // returns false when the section is not to be evaluated: comparators write  if (!c.setSection("behaviour")) return;
+  bool setSection(const std::string& s)
+  {
+    section = s;
+    if (s == "behaviour" && skipBehaviour) { behaviourSkipped++; return false; }
+    return true;
+  }
+  // true when one of the named getter fields (prefix match) was already found different: the dependent behavioural
+  // queries are then consequences of a reported difference, not independent evidence
+  bool differs(std::initializer_list<const char*> fields) const
+  {
+    for (auto& d : diffs)
+      for (const char* f : fields)
+        if (d.field.compare(0, strlen(f), f) == 0) return true;
+    return false;
+  }
+  Stat& st(const std::string& field) { return stats[owner + "|" + section + "|" + field]; }
   void fail(const std::string& field, const std::string& what, double err = 1.)
   {
     for (auto& d : diffs)
-      if (d.section == section && d.field == field) { d.err = std::max(d.err, err); return; }
-    diffs.push_back({section, field, what, err});
+      if (d.owner == owner && d.section == section && d.field == field) { d.err = std::max(d.err, err); return; }
+    diffs.push_back({owner, section, field, what, err});
   }
   // relative error in units of RELTOL (<= 1 passes)
   static double relErr(double a, double b)
@@ -172,6 +200,8 @@ struct Entry
   std::function<Obj(std::istream&, bool&)> deser;
   std::function<void(const void*, const void*, Cmp&)> compare;
   std::function<void(const void*, Cmp&)> exercise;
+  std::function<Obj()> blank; // default-constructed instance (what the API gives before anything is set)
+  std::function<const Db*(const void*)> asDb; // non-null for the Db family (C07 consistency rules apply)
   bool loaderIsEmulated = false; // no T::createFromNF: load = tag check + public deserialize(istream)
   std::function<int(const void*)> ndim; // space dimension the default space must have while handling the object
 };
@@ -231,6 +261,13 @@ Entry mkEntry(const std::string& name,
     ok = p->deserialize(is, false);
     return own<T>(p);
   };
+  e.blank = [blank]() -> Obj {
+    T* p = nullptr;
+    if (blank) p = blank();
+    else if constexpr (std::is_default_constructible_v<T>) p = new T();
+    return p ? own<T>(p) : Obj();
+  };
+  if constexpr (std::is_base_of_v<Db, T>) e.asDb = [](const void* o) -> const Db* { return static_cast<const T*>(o); };
   e.compare  = [compare](const void* a, const void* b, Cmp& c) { compare(*static_cast<const T*>(a), *static_cast<const T*>(b), c); };
   e.exercise = [exercise](const void* a, Cmp& c) { if (exercise) exercise(*static_cast<const T*>(a), c); };
   e.ndim     = [ndim](const void* a) { return ndim ? ndim(*static_cast<const T*>(a)) : 0; };
